@@ -714,7 +714,15 @@ func (e *Exec) step(fr *Frame, in ssa.Instruction) {
 		if s.Off == 0 && len(s.A.E) == n {
 			fr.Env[x] = PtrV{C: e.newCell(ArrayV{A: s.A})}
 		} else {
-			panic(abortf("UNSUPPORTED slice-to-array-pointer with offset"))
+			// a view into the middle of a backing array: modelled as a read-only copy (exact for
+			// the conversion-and-copy idiom [N]T(slice)); a store through it is UNSUPPORTED
+			cp := &ArrObj{E: make([]Value, n)}
+			for i := 0; i < n; i++ {
+				cp.E[i] = copyVal(s.A.E[s.Off+i])
+			}
+			c := e.newCell(ArrayV{A: cp})
+			c.viewCopy = true
+			fr.Env[x] = PtrV{C: c}
 		}
 	case *ssa.MakeChan, *ssa.Send, *ssa.Select:
 		panic(abortf("UNSUPPORTED channel operation at %s", e.L.Prog.Fset.Position(in.Pos())))
@@ -736,6 +744,9 @@ func fieldName(t types.Type, i int) string {
 func (e *Exec) store(p PtrV, v Value) {
 	if p.IsNil() {
 		panic(&GoPanic{Msg: "nil pointer dereference (store)"})
+	}
+	if p.C != nil && p.C.viewCopy {
+		panic(abortf("UNSUPPORTED store through a slice-to-array-pointer view"))
 	}
 	if av, ok := v.(ArrayV); ok && p.Opq == nil {
 		cur := e.peek(p)
